@@ -7,7 +7,7 @@ ID, X = sys.argv[1], sys.argv[2]
 checks = sys.argv[3:] or [ID]
 suffix = os.environ.get("SEED_ROUND", "")            # e.g. "r2": source /tmp/wt/<ID>r2, kept as <ID>-C / <ID>-D
 src = f"/tmp/wt/{ID}{suffix}/mutation/{X}"
-Xd = X if not suffix else {"r2": {"A": "C", "B": "D"}, "r3": {"A": "E", "B": "F"}, "r4": {"A": "G", "B": "H"}}[suffix][X]
+Xd = X if not suffix else {"r2": {"A": "C", "B": "D"}, "r3": {"A": "E", "B": "F"}, "r4": {"A": "G", "B": "H"}, "r5": {"A": "I", "B": "J"}}[suffix][X]
 dst = f"/verif/seeded/{ID}-{Xd}"
 val = {}
 if os.path.exists(f"{src}/validation.txt"):
